@@ -81,25 +81,26 @@ TAG_CR_LF = "inline_data_final_cr_before_lf_separator"
 
 
 def minimums(tier: str) -> Dict[str, int]:
-    if tier == "quick":
-        return {
-            "evaluations": 6000, "distinct": 3000,
-            "bmp_files_decoded": 3000, "jpg_files_compared": 150, "ltimage_data_compared": 4000,
-            "inline_images": 1200, "inline_text_docs": 600, "glyphs_after_inline_compared": 2000,
-            "inline_data_over_4096": 30, "preexisting_files_checked": 100, "name_collisions_resolved": 100,
-            "seen:xobj_widths": 67, "seen:xobj_heights": 40, "seen:bmp_kind_wmod": 3 * 8,
-            "seen:chains": 20, "seen:inline_after_EI": 8, "seen:inline_sep": 4, "seen:inline_keystyle": 3,
-            "seen:output_types": 3, "seen:inline_tail": 8,
-        }
-    return {
-        "evaluations": 60000, "distinct": 30000,
-        "bmp_files_decoded": 30000, "jpg_files_compared": 1500, "ltimage_data_compared": 40000,
-        "inline_images": 12000, "inline_text_docs": 6000, "glyphs_after_inline_compared": 20000,
-        "inline_data_over_4096": 300, "preexisting_files_checked": 1000, "name_collisions_resolved": 1000,
-        "seen:xobj_widths": 67, "seen:xobj_heights": 40, "seen:bmp_kind_wmod": 3 * 8,
-        "seen:chains": 30, "seen:inline_after_EI": 8, "seen:inline_sep": 4, "seen:inline_keystyle": 3,
-        "seen:output_types": 3, "seen:inline_tail": 8,
+    # roughly half of what an intact tree yields (the deterministic shards alone give a third of it)
+    q = {
+        "evaluations": 35000, "distinct": 25000,
+        "bmp_files_decoded": 25000, "bmp_gray1": 6000, "bmp_gray8": 8000, "bmp_rgb8": 6000,
+        "bmp_wmod4_1": 5000, "bmp_wmod4_2": 5000, "bmp_wmod4_3": 5000,
+        "jpg_files_compared": 3500, "ltimage_data_compared": 30000, "xobj_unfiltered": 4000,
+        "xobj_form_indirect_colorspace": 1500, "xobj_form_after_inline": 1200,
+        "inline_images": 8000, "inline_keystyle_full": 1500, "inline_text_docs": 4500,
+        "glyphs_after_inline_compared": 25000, "inline_data_over_4096": 400,
+        "inline_data_containing_EI_not_followed_by_ws": 900, "inline_tail_EOL": 400, "inline_tail_E": 300,
+        "preexisting_files_checked": 5000, "name_collisions_resolved": 8000, "output_src_checked": 12000,
+        "docs_tagged": 40,
     }
+    m = q if tier == "quick" else {k: v * 5 for k, v in q.items()}
+    m.update({
+        "seen:xobj_widths": 67, "seen:xobj_heights": 40, "seen:bmp_kind_wmod": 3 * 8, "seen:chains": 60,
+        "seen:inline_after_EI": 8, "seen:inline_sep": 4, "seen:inline_id_ws": 6, "seen:inline_keystyle": 3,
+        "seen:output_types": 3, "seen:inline_tail": 20,
+    })
+    return m
 
 
 def shards(tier: str, seed: int) -> List[Dict[str, Any]]:
@@ -109,17 +110,26 @@ def shards(tier: str, seed: int) -> List[Dict[str, Any]]:
     nsw = 4 if q else 8
     for ki in range(3):
         for part in range(nsw):
-            out.append({"fam": "sweep", "kind": ki, "part": part, "parts": nsw, "reps": 1 if q else 6})
+            out.append({"fam": "sweep", "kind": ki, "part": part, "parts": nsw, "reps": 4 if q else 24})
     # deterministic inline enumeration: tails x separators x after-EI x buffer offsets
-    nin = 6 if q else 12
+    nin = 12 if q else 24
     for part in range(nin):
         out.append({"fam": "inline_enum", "part": part, "parts": nin, "deep": not q})
-    for k in range(10 if q else 40):
-        out.append({"fam": "xobj", "sub": k, "n": 50 if q else 160})
-    for k in range(10 if q else 40):
-        out.append({"fam": "inline", "sub": 100 + k, "n": 70 if q else 230})
-    out.append({"fam": "tagged", "sub": 900, "n": 20 if q else 100})
-    return out
+    for k in range(16 if q else 64):
+        out.append({"fam": "xobj", "sub": k, "n": 330 if q else 1700})
+    for k in range(16 if q else 64):
+        out.append({"fam": "inline", "sub": 100 + k, "n": 330 if q else 1700})
+    out.append({"fam": "tagged", "sub": 900, "n": 40 if q else 400})
+    # interleave the families (the evidence samples come from the first shards; similar load at any time)
+    fams: Dict[str, List[Dict[str, Any]]] = {}
+    for s in out:
+        fams.setdefault(s["fam"], []).append(s)
+    mixed: List[Dict[str, Any]] = []
+    while any(fams.values()):
+        for f in list(fams):
+            if fams[f]:
+                mixed.append(fams[f].pop(0))
+    return mixed
 
 
 # --------------------------------------------------------------------------
@@ -219,18 +229,38 @@ def pick_chain(rng: random.Random, dct: bool) -> List[str]:
 NAMES = ["Im0", "Im1", "Im2", "X", "img"]
 
 
-def xobj_stream(img: Dict[str, Any], rng: random.Random) -> Stream:
+def xobj_stream(img: Dict[str, Any], rng: random.Random, doc: Doc) -> Stream:
+    """The image dictionary; every value may also be an indirect reference (ISO 32000-1 7.3.10)."""
     chain = img["chain"]
     kind = img["kind"]
-    d: Dict[str, Any] = {"Type": N("XObject"), "Subtype": N("Image"), "Width": img["w"], "Height": img["h"]}
+    forms: List[str] = []
+
+    def val(v: Any, what: str, p: float) -> Any:
+        if rng.random() < p:
+            forms.append("indirect_" + what)
+            return doc.add(v)
+        return v
+
+    d: Dict[str, Any] = {"Type": N("XObject"), "Subtype": N("Image"),
+                         "Width": val(img["w"], "size", 0.05), "Height": val(img["h"], "size", 0.05)}
     csname = CS_FULL[img.get("cskind", kind)]
-    d["ColorSpace"] = N(csname) if rng.random() < 0.7 else [N(csname)]
-    d["BitsPerComponent"] = 1 if kind == "gray1" else 8
+    if rng.random() < 0.7:
+        cs: Any = N(csname)
+    else:
+        cs = [N(csname)]
+        forms.append("cs_array")
+    d["ColorSpace"] = val(cs, "colorspace", 0.12)
+    d["BitsPerComponent"] = val(1 if kind == "gray1" else 8, "bpc", 0.05)
     if chain:
         names = [N(enc.FILTER_NAMES[c]) for c in chain]
-        d["Filter"] = names[0] if len(names) == 1 and rng.random() < 0.6 else names
+        if len(names) == 1 and rng.random() < 0.6:
+            d["Filter"] = names[0]
+        else:
+            d["Filter"] = names
+            forms.append("filter_array")
     if rng.random() < 0.2:
         d["Interpolate"] = False
+    img["forms"] = forms
     return Stream(d, enc.encode_chain(chain, img["data"], rng))
 
 
@@ -254,7 +284,7 @@ def gen_image(rng: random.Random, kind: Optional[str] = None, w: Optional[int] =
 
 def build_xobj_case(rng: random.Random, images: List[Dict[str, Any]], npages: int, fam: str = "xobj") -> Dict[str, Any]:
     doc = Doc()
-    refs = [doc.add(xobj_stream(im, rng)) for im in images]
+    refs = [doc.add(xobj_stream(im, rng, doc)) for im in images]
     pages = []
     draws: List[Dict[str, Any]] = []
     # names -> image index, re-drawn per page so that names collide across pages
@@ -288,7 +318,7 @@ def build_xobj_case(rng: random.Random, images: List[Dict[str, Any]], npages: in
             im = images[idx]
             draws.append({"page": p, "name": name, "kind": im["kind"], "cskind": im.get("cskind", im["kind"]),
                           "w": im["w"], "h": im["h"], "data": im["data"], "bbox": [x, y, x + dw, y + dh],
-                          "chain": im["chain"], "inline": False, "sep": b""})
+                          "chain": im["chain"], "inline": False, "sep": b"", "forms": im.get("forms", [])})
         res = {"XObject": {n: refs[i] for n, i in names.items()}}
         pages.append({"content": b"\n".join(ops) + b"\n", "resources": res})
     d = page_doc(pages, doc=doc)
@@ -361,7 +391,7 @@ def inline_raw(rng: random.Random, img: Dict[str, Any], sep: bytes) -> Optional[
 
 AFTER_EI = [b" ", b"\n", b"\r", b"\r\n", b"\t", b"\x0c", b"\x00", b""]  # b"" = end of the content stream
 SEPS = [b"\n", b"\r\n", b"\r", b" "]
-ID_WS = [b" ", b"\n", b"\r", b"\t", b"\x0c"]
+ID_WS = [b" ", b"\n", b"\r", b"\t", b"\x0c", b"\x00"]
 
 
 def text_op(x: int, y: int, s: bytes) -> bytes:
@@ -390,6 +420,8 @@ def build_inline_case(rng: random.Random, items: List[Dict[str, Any]], fam: str 
     plain: List[bytes] = []    # the same content without them
     draws: List[Dict[str, Any]] = []
     chars: List[Dict[str, Any]] = []
+    xobjs: List[Tuple[str, Dict[str, Any]]] = []
+    boxes: set = set()
     y = 760
     for i, it in enumerate(items):
         img = it["img"]
@@ -399,8 +431,9 @@ def build_inline_case(rng: random.Random, items: List[Dict[str, Any]], fam: str 
         if it["id_ws"] == b"\r" and it["raw"][:1] == b"\n":
             it["id_ws"] = b" "  # 'ID CR LF' could be read as ID followed by one end-of-line marker
         body = b"BI " + d + (b" " if rng.random() < 0.7 else b"\n") + b"ID" + it["id_ws"] + it["raw"] + it["sep"] + b"EI" + it["after"]
+        # every image of the document gets its own place (LTImages are matched to draws by bounding box)
         dw, dh = rng.randint(1, 150), rng.randint(1, 150)
-        x0, y0 = rng.randint(0, 300) + 3 * i, rng.randint(0, 500) + 7 * i
+        x0, y0 = rng.randint(0, 100) + 110 * i, rng.randint(0, 500)
         s = bytes(rng.choice(ALNUM) for _ in range(rng.randint(1, 6)))
         tx, y = rng.randint(10, 300), y - 20
         wrap = it["wrap"]
@@ -415,7 +448,7 @@ def build_inline_case(rng: random.Random, items: List[Dict[str, Any]], fam: str 
         elif wrap == "qtext":
             # the text is shown inside the q..Q that scales the image: CTM [sc 0 0 sc ex ey]
             sc = rng.choice([1, 2, 4])
-            ex, ey = rng.randint(0, 40), rng.randint(0, 40)
+            ex, ey = rng.randint(0, 40) + 50 * i, rng.randint(0, 40) + 600
             t = text_op(tx // 4, y // 4, s)
             pre = b"q %d 0 0 %d %d %d cm" % (sc, sc, ex, ey)
             ops += [pre, body, t, b"Q"]
@@ -429,10 +462,22 @@ def build_inline_case(rng: random.Random, items: List[Dict[str, Any]], fam: str 
             plain += [pre, b"Q", t]
             chars += expected_chars(0, tx, y, s, (1, 0, 0))
             bbox = [x0, y0, x0 + dw, y0 + dh]
+        assert tuple(bbox) not in boxes
+        boxes.add(tuple(bbox))
         draws.append({"page": 0, "name": None, "kind": img["kind"], "cskind": cskind, "w": img["w"], "h": img["h"],
                       "data": img["data"], "bbox": bbox, "chain": img["chain"], "inline": True, "sep": it["sep"],
                       "rawlen": len(it["raw"]), "feat": {"keystyle": it["keystyle"], "id_ws": it["id_ws"], "after": it["after"],
                                                           "wrap": wrap}})
+        if tag is None and not last_eof and rng.random() < 0.25:
+            # an image XObject painted after the inline image must come out as well
+            xim = gen_image(rng, w=rng.randint(1, 20), h=rng.randint(1, 10))
+            xname = "Xi%d" % i
+            xb = [500 + 5 * i, 600 + 9 * i, 500 + 5 * i + rng.randint(1, 90), 600 + 9 * i + rng.randint(1, 90)]
+            ops.append(b"q %d 0 0 %d %d %d cm /%s Do Q" % (xb[2] - xb[0], xb[3] - xb[1], xb[0], xb[1], xname.encode()))
+            xobjs.append((xname, xim))
+            draws.append({"page": 0, "name": xname, "kind": xim["kind"], "cskind": xim.get("cskind", xim["kind"]),
+                          "w": xim["w"], "h": xim["h"], "data": xim["data"], "bbox": xb, "chain": xim["chain"],
+                          "inline": False, "sep": b"", "forms": ["after_inline"]})
 
     def join(parts: List[bytes]) -> bytes:
         out = bytearray()
@@ -442,8 +487,12 @@ def build_inline_case(rng: random.Random, items: List[Dict[str, Any]], fam: str 
                 out += b"\n"
         return bytes(out)
 
+    res: Dict[str, Any] = {"Font": {"F1": font_widths()}}
+    doc = Doc()
+    if xobjs:
+        res = dict(res, XObject={n: doc.add(xobj_stream(im, rng, doc)) for n, im in xobjs})
+    pdf = page_doc([{"content": join(ops), "resources": res}], doc=doc).build()
     res = {"Font": {"F1": font_widths()}}
-    pdf = page_doc([{"content": join(ops), "resources": res}]).build()
     pdf_plain = page_doc([{"content": join(plain), "resources": res}]).build()
     return {"fam": fam, "pdf": pdf, "plain": pdf_plain, "draws": draws, "chars": chars, "pre": {},
             "otype": rng.choice(["text", "text", "xml", "html"]), "lap": rng.random() < 0.5, "export": export, "tag": tag}
@@ -890,6 +939,8 @@ def _record(case: Dict[str, Any], rec, extra_see: Optional[Dict[str, Any]] = Non
                     rec.count("inline_data_containing_EI_not_followed_by_ws")
         else:
             rec.count("xobj_draws")
+            for f in dr.get("forms", []):
+                rec.count("xobj_form_" + f)
             rec.see("xobj_widths", dr["w"])
             rec.see("xobj_heights", dr["h"])
             if dr["kind"] != "dct":
@@ -902,10 +953,10 @@ def _record(case: Dict[str, Any], rec, extra_see: Optional[Dict[str, Any]] = Non
         rec.count("docs_with_preexisting_files")
     for k, d in fails:
         rec.fail(k, case, d)
-    if rec.want_sample() and case["draws"]:
+    if not rec.samples and case["draws"]:
         dr = case["draws"][0]
         rec.sample({"fam": case["fam"], "otype": case["otype"], "first_draw": {k: dr[k] for k in ("kind", "w", "h", "chain", "inline", "name", "bbox")},
-                    "pdf_bytes": len(case["pdf"]), "content_head": _content_head(case["pdf"]), "observed": obs})
+                    "pdf_bytes": len(case["pdf"]), "content_head": _content_head(case["pdf"]).decode("latin-1"), "observed": obs})
 
 
 def _content_head(pdf: bytes) -> bytes:
@@ -965,7 +1016,9 @@ def _run_inline_enum(spec: Dict[str, Any], rec) -> None:
     """Unfiltered gray rows whose tail, separator, white space after EI and length are enumerated."""
     rng = random.Random("C18/inline_enum/%d" % spec["part"])  # seed independent
     combos = []
-    lens = [1, 2, 3, 5, 17] + ([4090 - 34, 4096 - 34, 4096 - 33, 4096 - 32, 4096 - 31, 4100, 8192 - 33, 9001] if True else [])
+    # get_inline_data re-reads from the first data byte, so the parser's 4096-byte buffers end at data offsets
+    # 4096, 8192: these lengths put 'E', 'I' and the byte after them on either side of a boundary
+    lens = [1, 2, 3, 5, 17, 4092, 4093, 4094, 4095, 4096, 4097, 8190, 8191, 9001]
     for tail in TAILS:
         for sep in SEPS:
             for after in AFTER_EI:
